@@ -685,3 +685,72 @@ func TIFFFile(l *core.Lane, tiff []byte, surround bool) []byte {
 	}
 	return out
 }
+
+// EdgeOpts describes a small ISOBMFF file in which the last child of a container is cut short
+// by its parent (a bare or partial header) and sits at a chosen absolute offset - typically next
+// to a multiple of a reader's buffer size, where a header is split between two fills.
+type EdgeOpts struct {
+	Layout   int    // 0 moov, 1 moov>uuid(Canon), 2 meta (HEIF), 3 meta>iprp (HEIF)
+	At       int    // absolute offset of the trailing child (reached with a 'free' box in front)
+	Remain   int    // bytes the parent has left for the trailing child (0..24)
+	Size     uint32 // the trailing child's 32-bit size field
+	Type     string // its four-character type
+	Follow   int    // bytes after the parent (a top-level mdat or nothing)
+	PadInner bool   // pad with a box inside the container (else: a top-level free box before it)
+}
+
+// EdgeBoxFile builds the file described by o. The trailing child consists of its size field, its
+// type and filler, cut to o.Remain bytes.
+func EdgeBoxFile(o EdgeOpts) []byte {
+	tail := append(be32(o.Size), (o.Type + "    ")[:4]...)
+	for i := 0; len(tail) < 24; i++ {
+		tail = append(tail, byte(0x10+i))
+	}
+	tail = tail[:o.Remain]
+	var ftyp []byte
+	if o.Layout < 2 {
+		ftyp = Box("ftyp", []byte("crx "), be32(1), []byte("crx isom"))
+	} else {
+		ftyp = Box("ftyp", []byte("heic"), be32(0), []byte("mif1heic"))
+	}
+	// bytes between ftyp and the padding: headers of the enclosing containers
+	var pre int
+	switch o.Layout {
+	case 0:
+		pre = 8
+	case 1:
+		pre = 8 + 8 + 16
+	case 2:
+		pre = 12 + len(fullBox("hdlr", 0, 0, be32(0), []byte("pict"), make([]byte, 13)))
+	default:
+		pre = 12 + len(fullBox("hdlr", 0, 0, be32(0), []byte("pict"), make([]byte, 13))) + 8
+	}
+	pad := o.At - len(ftyp) - pre
+	if pad < 8 {
+		pad = 8
+	}
+	free := Box("free", make([]byte, pad-8))
+	var inner, top []byte
+	if o.PadInner {
+		inner = free
+	} else {
+		top = free
+	}
+	hdlr := fullBox("hdlr", 0, 0, be32(0), []byte("pict"), make([]byte, 13))
+	var body []byte
+	switch o.Layout {
+	case 0:
+		body = Box("moov", inner, tail)
+	case 1:
+		body = Box("moov", Box("uuid", uuidCanonMeta, inner, tail))
+	case 2:
+		body = fullBox("meta", 0, 0, hdlr, inner, tail)
+	default:
+		body = fullBox("meta", 0, 0, hdlr, Box("iprp", inner, tail))
+	}
+	out := append(append(append([]byte(nil), ftyp...), top...), body...)
+	if o.Follow > 0 {
+		out = append(out, Box("mdat", make([]byte, o.Follow))...)
+	}
+	return out
+}
